@@ -3,8 +3,11 @@
 Proof      : coq/Props/C17.v over coq/Model/Path.v (symlink file-system model, CPython's non-strict
              realpath incl. its give-up-on-a-loop branch, commonpath, relpath, the repaired resolver
              canonical_path/_resolve_path, _get_arrow_path, list_files, the kernel's own path walk) and
-             coq/Gen/GenPath.v (the guard structure of the anchored functions, regenerated from the source).
-Tie        : translator/gen_path.py (fail-closed golden shapes + regenerated constants) and differential
+             coq/Gen/GenPath.v (the guard structure of the anchored functions and the STATE of a handle -- attributes, stores
+             outside __init__, attributes the guards read -- regenerated from the source); sessions in which the names a listing
+             handed out come back in (Proofs/SessionProofs.v), handle state fixed at construction (Proofs/HandleState.v).
+Tie        : translator/gen_path.py (fail-closed golden shapes + regenerated constants + handle-state tables; a decorator or
+             global / nonlocal in a guard, setattr / __dict__ on self fail closed) and differential
              correspondence on trees materialised with real symlinks:
                resolve   LocalStorageBackend._resolve_path      vs Model/Path.v resolve
                arrow     DataFileManager._get_arrow_path        vs arrow_path
@@ -28,6 +31,17 @@ search       point x the grammar under sys.addaudithook; kernel-judged locations
              directory), and the same handle uses the string again; every use is judged against the arrangement
              current at that use (pathaudit.run_history), and differentially against the stateless model
              (hist-resolve / hist-arrow / hist-listing).
+             SESSIONS: operation SEQUENCES on ONE long-lived LocalStorageBackend / DataFileManager / Table handle over a STATIC
+             arrangement (pathfs.filelink_spec: FILE symlinks -- outward absolute / relative / to the sibling-prefix directory /
+             through a second link / dangling, and inward controls -- in every directory a table operation lists: data/, a partition
+             directory, metadata/, metadata/manifests/, metadata/inflight/, the root).  The handle first lists a prefix / probes /
+             reads / collects garbage (grace 0 and default) / refreshes (with and without the version hint) / scans, then every
+             entry point is called with EVERY NAME A LISTING OF THE ROOT CAN HAND OUT (os.walk reports a link to a file among the
+             files), table-relative, Iceberg-style and absolute; on a Table each name is registered with append_files + commit and
+             scanned.  Every step is judged on its own by the kernel (touch / sentinel / reject / listed); a failing step is shrunk to
+             [that step] / [head, that step] / the prefix.  Differentially: Model/Path.v run_session (its own listing feeds its later
+             steps, SListed i k) vs one backend + one DataFileManager object listing and then resolving every returned name (sessions),
+             and the resolver / arrow / listing / realpath / kernel / scans correspondences on the file-link tree (*-filelink).
              OBJECT STORE: S3StorageBackend over an in-memory client (harness/lib/mems3.py), 5 prefix configurations
              (two-level, trailing slash, one level, three levels, none), conditional writes on / off, 17 entry points
              x the path grammar ('..', '.', '', absolute, sibling-prefix names): every request key / listing Prefix
@@ -91,22 +105,31 @@ MANIFEST_ENTRY = {
                   "directories at or below it -- never through a directory link, inward or outward (C17_listing_scans_inside); every entry point of the table "
                   "regenerated from the source hands the OS only its guard's result or that result's parent (C17_entrypoints), also at "
                   "every step of a history in which the arrangement changes between uses of one handle -- a handle carries no "
-                  "validated-path state (C17_history_inside, C17_history_stateless); on the object-store backend every request key and "
+                  "validated-path state (C17_history_inside, C17_history_stateless); in every SESSION on one handle, where the string of a "
+                  "step may be a name an earlier listing of the same handle returned (file symlinks are listed among the files), the "
+                  "outcome of a step is run_entry of its own tree on the string denoted and nothing else of the past (C17_session_stateless, "
+                  "C17_session_of_literals_is_history), every returning step stays inside (C17_session_inside) and a listed name that the "
+                  "kernel walks out of the root is Err Security for every entry point (C17_session_listed_name_rejected, "
+                  "C17_listed_name_rejected); the model's handle is its base string because, over tables regenerated from the source, no "
+                  "attribute a path guard reads is stored into after construction (C17_handle_state_fixed_at_construction); a handle that "
+                  "remembers listed names is refuted by a concrete tree (C17_memoising_handle_refuted); on the object-store backend every request key and "
                   "listing Prefix is the configured prefix + '/' + the path's bytes verbatim, hence under the table prefix, for every "
                   "string (C17_s3_key_under_prefix, C17_s3_list_prefix_under_prefix, over Gen/GenS3.v regenerated from the source); "
                   "commonpath containment is component-wise prefix (C17_commonpath_prefix); fuel = number of links suffices "
                   "(C17_fuel_sufficient); the resolver as found is refuted by a concrete tree (C17_legacy_resolver_refuted). Model tied "
                   "to the code by golden-shape / taint translation of the guards and by differential execution against real symlink "
                   "trees (resolver, arrow path, listing, realpath, kernel, entry points) over the exhaustive path grammar; "
-                  "implementation-only OS-call audit of 30 entry points over two arrangements (one with symlink cycles, one cycle-free with "
-                  "outward directory links below the listed prefixes) searches for a failing input; every library call is bounded (time, "
+                  "implementation-only OS-call audit of 30 entry points over three arrangements (one with symlink cycles, one cycle-free with "
+                  "outward directory links below the listed prefixes, one with file symlinks in every listed directory), single calls, "
+                  "histories with an arrangement change between two uses, and operation sequences on one long-lived storage / "
+                  "DataFileManager / Table handle that re-use the names a listing hands out, searches for a failing input; every library call is bounded (time, "
                   "memory, hard limit, external monitor) so that a non-terminating change is reported as a violation with its input",
     "level_note": "trusted: Coq kernel; translator/gen_path.py; the model of posixpath.realpath/commonpath/relpath and of the kernel "
                   "walk (validated on every run against CPython 3.12 and the running kernel); the audit harness (sys.addaudithook sees "
                   "Python-level OS calls only); not modelled: time-of-check/time-of-use races, hard links, mount points, the S3 "
                   "backend (C20). Two defects found and repaired on the library branch: realpath's give-up result on a symlink loop "
                   "trusted by the resolver (escape), and temp files staged next to the root when writing at the root itself",
-    "technique": "Coq proof over a symlink file-system model + golden-shape/taint translation + differential correspondence + OS-call audit",
+    "technique": "Coq proof over a symlink file-system model (single calls, histories, sessions with listing feedback) + golden-shape/taint/handle-state translation + differential correspondence + OS-call audit of calls, histories and operation sequences",
     "design_ref": "DESIGN.md section 5 C17",
 }
 
@@ -1401,9 +1424,13 @@ def run(ctx) -> None:
                 "distinct by (arrangement, entry point, root spelling, string); histories: (handle kind) x (first-use entry point) x "
                 "(6 arrangement changes) x (second-use entry point) x affected strings x root spelling on ONE long-lived handle, plus "
                 "change / change-again sequences; object store: 5 key-prefix configurations x conditional writes on/off x 17 entry points x "
-                "the path grammar over an in-memory bucket holding sibling-prefix, ancestor-level and bucket-root objects")
+                "the path grammar over an in-memory bucket holding sibling-prefix, ancestor-level and bucket-root objects; sessions: (handle kind) x "
+                "(root spelling) x (what the handle does first: list one of 5-8 prefixes / probe / read / collect / refresh / scan) x (every entry "
+                "point) x (every file and link name below the root of the file-link arrangement, relative / Iceberg-style / absolute) on ONE handle, "
+                "distinct by (handle kind, root spelling, head)")
     ctx.trusted_base += [
-        "translator/gen_path.py (golden AST shapes of canonical_path, _resolve_path, _get_arrow_path, list_files' guard, write guards; regenerated constants)",
+        "translator/gen_path.py (golden AST shapes of canonical_path, _resolve_path, _get_arrow_path, list_files' guard, write guards; regenerated constants; "
+        "the handle-state tables: attribute stores are recognised syntactically -- assignment, item assignment / deletion, a fixed list of mutating method names)",
         "Model/Path.v's rendering of CPython 3.12 posixpath.realpath/_joinrealpath/commonpath/relpath/join and of the kernel path walk "
         "(validated on every run against os.path.realpath and O_PATH+/proc/self/fd on real symlink trees)",
         "harness: harness/props/c17.py, harness/lib/pathfs.py, harness/lib/pathaudit.py (sys.addaudithook sees Python-level OS calls; "
